@@ -10,6 +10,12 @@ impl<V> HashMap<String, V> {
         ensures match r { Some(v) => self@.contains_key(k@) && *v == self@[k@], None => !self@.contains_key(k@) }
     { unimplemented!() }
     #[verifier::external_body]
+    pub fn insert(&mut self, k: String, v: V) -> (r: Option<V>)
+        ensures final(self)@ == old(self)@.insert(k@, v)
+    { unimplemented!() }
+    #[verifier::external_body]
+    pub fn is_empty(&self) -> (r: bool) ensures r == (self@.len() == 0) { unimplemented!() }
+    #[verifier::external_body]
     pub fn entry(&mut self, k: String) -> (r: Entry<'_, V>)
         ensures r.key() == k@, r.before() == old(self)@,
             (r is Occupied) == old(self)@.contains_key(k@),
